@@ -108,7 +108,7 @@ def run(ctx):
     maxlen = ctx.q(3, 4)
     bound = ctx.q(2, 3)
     hs = histories(maxlen, ctx.q(2, 3), 3)
-    cap = ctx.q(20000, 400000)
+    cap = ctx.q(4000, 400000)
     # most expensive first so that the pool of workers stays busy
     hs.sort(key=lambda h: -sum(int(o[1:]) + 1 for o in h.split(",")))
     core.pmap(ctx, _chunk, [(x, h, bound, cap) for h in hs], nchunks=min(len(hs), 16 * 8))
